@@ -456,8 +456,19 @@ def accumulate_compute_contract(interp, args, kwargs):
     return interp.call(interp.repo.get(f"{TR}.tensor_dict.EmptyTensorDict"), [])
 
 
+def leaf_tensors_contract(interp, args, kwargs):
+    """Contract of _get_leaf_tensors applied at a call site (its own verification: C12.leaves.* / C12.bfs.*): SOME set of
+    tensors, each a leaf requiring grad [T: variables of AccumulateGrad nodes].  Which tensors are in the graph is not known
+    to the caller's proof: the result is an arbitrary such set."""
+    D = V.SymSet(interp.cx, "discovered")
+    tq = z3.Const("t!q", TenS)
+    interp.cx.assume(V.forall([tq], z3.Implies(D.contains(tq), expects_grad(tq))), tag="discovered parameters are leaves requiring grad [T]")
+    return D
+
+
 SUMMARIES = dict(OVERRIDES)
 SUMMARIES.update({
+    f"{AJ}._utils._get_leaf_tensors": leaf_tensors_contract,
     f"{TR}.diagonalize.Diagonalize.__init__": diag_init_contract,
     f"{TR}.diagonalize.Diagonalize._compute": diag_compute_contract,
     f"{TR}.jac.Jac._differentiate": jac_differentiate_contract,
